@@ -157,11 +157,63 @@ Theorem C12_column_first_refuted :
 Proof. exact column_first_refuted. Qed.
 Print Assumptions C12_column_first_refuted.
 
+(* ---- every creation route (from_dataframe, from_file, from_random) x centres given or made ---- *)
+Theorem C12_route_reports_centres_in_use : forall (C : Type) (given : option (list C)) name num made means cs,
+  centres_in_use given name num made = Some cs -> route_centres given name num made means = cs.
+Proof. exact @route_reports_centres_in_use. Qed.
+Print Assumptions C12_route_reports_centres_in_use.
+
+Theorem C12_route_centres_in_use : forall (C : Type) (given : option (list C)) name num made,
+  (forall cs, given = Some cs -> centres_in_use given name num made = Some cs) /\
+  (given = None -> name = false -> num = true -> centres_in_use given name num made = Some made) /\
+  (given = None -> name = true -> centres_in_use given name num made = None).
+Proof. exact @route_in_use_cases. Qed.
+Print Assumptions C12_route_centres_in_use.
+
+Theorem C12_route_reproduces_partition :
+  forall (C R : Type) (dist : R -> C -> Q) given name num made means cs (chunks arrived : list (chunk R)) p l r,
+  centres_in_use given name num made = Some cs -> cs <> [] -> Permutation arrived chunks ->
+  route_data dist given name num made arrived p = Some l -> In r l ->
+  own_centre_nearest (row_to dist (route_centres given name num made means) r) p = true.
+Proof. exact @route_reproduces_partition. Qed.
+Print Assumptions C12_route_reproduces_partition.
+
+Theorem C12_made_centres_any_oracle :
+  forall (C R : Type) (dist : R -> C -> Q) made means (chunks arrived : list (chunk R)) p l r,
+  made <> [] -> Permutation arrived chunks ->
+  route_data dist None false true made arrived p = Some l -> In r l ->
+  own_centre_nearest (row_to dist (route_centres None false true made means) r) p = true.
+Proof. exact @route_create_any_oracle. Qed.
+Print Assumptions C12_made_centres_any_oracle.
+
+Theorem C12_rebuilt_from_reported_centres_same_patches :
+  forall (C R : Type) (dist : R -> C -> Q) given name num made means cs (chunks chunks' : list (chunk R)) name' num' made' p,
+  centres_in_use given name num made = Some cs ->
+  concat (map recs chunks') = concat (map recs chunks) ->
+  route_data dist (Some (route_centres given name num made means)) name' num' made' chunks' p =
+  route_data dist given name num made chunks p.
+Proof. exact @route_rebuild_same_partition. Qed.
+Print Assumptions C12_rebuilt_from_reported_centres_same_patches.
+
+Theorem C12_loader_handed_argument_refuted :
+  exists (made means : list Q) (chunks : list (chunk Q)) (r : Q),
+    let dist := fun x c : Q => (x - c) * (x - c) in
+    route_data dist None false true made chunks 1 = Some [r; 20] /\
+    own_centre_nearest (row_to dist (route_centres None false true made means) r) 1 = true /\
+    own_centre_nearest (row_to dist (route_centres_arg None means) r) 1 = false /\
+    route_data dist (Some (route_centres_arg None means)) false false [] chunks 1 = Some [20].
+Proof. exact route_arg_refuted. Qed.
+Print Assumptions C12_loader_handed_argument_refuted.
+
 Example C12_concrete :
   radius (compute [1#2; 3#4; 1#4] None) = 3#4 /\ guard [0;1]%nat [0;1]%nat [1#10; 3#4] [1; 1] (1#2) = false /\
   patch_data (Some argmin) [ {| recs := [[1#4; 3#4]; [3#4; 1#4]]; col := Some [1; 0]%nat |};
                              {| recs := [[1#8; 1#2]]; col := Some [1]%nat |} ] 0 = Some [[1#4; 3#4]; [1#8; 1#2]] /\
   c12_split_case true true false [[1#4; 3#4]; [3#4; 1#4]] (Some [1; 0]%nat) [1; 0]%nat = 3%nat /\
+  (* from_random(patch_num=2): records 0, 4 | 6, 20 split by the made centres 0, 10; rows to the reported centres *)
+  (let dist := fun x c : Q => (x - c) * (x - c) in
+   c12_route_case (map (row_to dist (route_centres None false true [0; 10] [2; 13])) [0; 4; 6; 20]) [0; 0; 1; 1]%nat [0; 0; 1; 1]%nat = 0%nat /\
+   c12_route_case (map (row_to dist (route_centres_arg None [2; 13])) [0; 4; 6; 20]) [0; 0; 1; 1]%nat [0; 0; 0; 1]%nat = 11%nat) /\
   (* crosscorrelate(reference, unknown, ref_rand): compact reference randoms (most records), wide
      unknown sample, reference sample three patch radii off *)
   let cats := [ {| g_ids := [0; 1]%nat; g_nrec := [100; 100]%nat; g_radii := [2#5; 2#5] |};
